@@ -271,12 +271,16 @@ pub open spec fn flst_post(o: FileTransferPlugin, f: FileTransferPlugin, e: DltC
 // `dir.join(base)` is not below it; the file system is a ghost record of what exists and of every create-and-write.
 pub uninterp spec fn spec_is_base_name(s: Seq<char>) -> bool;
 pub uninterp spec fn spec_join(dir: Seq<char>, name: Seq<char>) -> Seq<char>;
-pub uninterp spec fn spec_below_or_self(x: Seq<char>, q: Seq<char>) -> bool;   // x is q or an ancestor directory of q
 pub trait VxPathText { spec fn t(&self) -> Seq<char>; }
 impl VxPathText for String { open spec fn t(&self) -> Seq<char> { self@ } }
-impl VxPathText for &String { open spec fn t(&self) -> Seq<char> { (**self)@ } }
+impl VxPathText for str { open spec fn t(&self) -> Seq<char> { self@ } }
+impl<T: VxPathText + ?Sized> VxPathText for &T { open spec fn t(&self) -> Seq<char> { (**self).t() } }
+// what existed when check_auto_save was entered (the routine itself only ever adds directories above the file it writes; changes by
+// other processes in between - TOCTOU - are outside the model)
+pub uninterp spec fn spec_present0(p: Seq<char>) -> bool;
 #[verifier::external_body]
 pub struct VxPath { _p: u8 }
+impl VxPathText for VxPath { open spec fn t(&self) -> Seq<char> { self.text() } }
 #[verifier::external_body]
 pub struct VxOsStr { _p: u8 }
 #[verifier::external_body]
@@ -294,15 +298,23 @@ impl VxCow {
 impl VxPath {
     pub uninterp spec fn text(&self) -> Seq<char>;
     #[verifier::external_body]
-    pub fn new(s: &String) -> (r: VxPath) ensures r.text() == s@ { unimplemented!() }
+    pub fn new<T: VxPathText>(s: T) -> (r: VxPath) ensures r.text() == s.t() { unimplemented!() }
+    // Path::exists(): reports false only for what did not exist at entry
     #[verifier::external_body]
-    pub fn new_dot() -> (r: VxPath) ensures r.text() == "./"@ { unimplemented!() }
+    pub fn exists(&self) -> (r: bool) ensures !r ==> !spec_present0(self.text()) { unimplemented!() }
+    // `.file_name().map(|s| s.to_string_lossy())`
+    #[verifier::external_body]
+    pub fn vx_file_name_lossy(&self) -> (r: Option<VxCow>) ensures r is Some ==> spec_is_base_name(r->Some_0.text()) { unimplemented!() }
+    #[verifier::external_body]
+    pub fn is_relative(&self) -> (r: bool) { unimplemented!() }
+    #[verifier::external_body]
+    pub fn is_absolute(&self) -> (r: bool) { unimplemented!() }
     #[verifier::external_body]
     pub fn file_name(&self) -> (r: Option<VxOsStr>) ensures r is Some ==> spec_is_base_name(r->Some_0.text()) { unimplemented!() }
     #[verifier::external_body]
     pub fn join<T: VxPathText>(&self, name: T) -> (r: VxPath) ensures r.text() == spec_join(self.text(), name.t()) { unimplemented!() }
     #[verifier::external_body]
-    pub fn parent(&self) -> (r: Option<VxPath>) ensures r is Some ==> !spec_below_or_self(self.text(), r->Some_0.text()) { unimplemented!() }
+    pub fn parent(&self) -> (r: Option<&VxPath>) { unimplemented!() }
     #[verifier::external_body]
     pub fn to_str(&self) -> (r: Option<&str>) { unimplemented!() }
 }
@@ -310,22 +322,18 @@ pub struct VxWrite { pub path: Seq<char>, pub data: Seq<u8>, pub existed: bool }
 #[verifier::external_body]
 pub struct VxFs { _p: u8 }
 impl VxFs {
-    pub uninterp spec fn present(&self) -> Set<Seq<char>>;       // what exists (files and directories)
     pub uninterp spec fn writes(&self) -> Seq<VxWrite>;          // every create-and-write so far
-    #[verifier::external_body]
-    pub fn exists(&self, p: &VxPath) -> (r: bool) ensures r == self.present().contains(p.text()) { unimplemented!() }
     // std::fs::create_dir_all(q): may create q and its ancestors, nothing else; writes no file
     #[verifier::external_body]
-    pub fn create_dir_all(&mut self, q: &VxPath) -> (r: Result<(), VxIoErr>)
+    pub fn create_dir_all<T: VxPathText>(&mut self, q: T) -> (r: Result<(), VxIoErr>)
         ensures final(self).writes() == old(self).writes(),
-            forall|x: Seq<char>| !spec_below_or_self(x, q.text()) ==> (#[trigger] final(self).present().contains(x) == old(self).present().contains(x)),
     { unimplemented!() }
     // `File::create(&path).and_then(|mut f| f.write_all(data))`: truncates/creates the file and writes the bytes
     #[verifier::external_body]
-    pub fn create_and_write(&mut self, p: &VxPath, data: &Vec<u8>) -> (r: Result<(), VxIoErr>)
+    pub fn create_and_write<T: VxPathText>(&mut self, p: T, data: &Vec<u8>) -> (r: Result<(), VxIoErr>)
         ensures
-            r is Ok ==> final(self).writes() == old(self).writes().push(VxWrite { path: p.text(), data: data@, existed: old(self).present().contains(p.text()) }),
-            r is Err ==> final(self).writes() == old(self).writes() || final(self).writes() == old(self).writes().push(VxWrite { path: p.text(), data: Seq::empty(), existed: old(self).present().contains(p.text()) }),
+            r is Ok ==> final(self).writes() == old(self).writes().push(VxWrite { path: p.t(), data: data@, existed: spec_present0(p.t()) }),
+            r is Err ==> final(self).writes() == old(self).writes() || final(self).writes() == old(self).writes().push(VxWrite { path: p.t(), data: Seq::empty(), existed: spec_present0(p.t()) }),
     { unimplemented!() }
 }
 #[verifier::external_body]
@@ -338,7 +346,8 @@ pub fn vx_path_text_owned(p: &VxPath) -> (r: Option<String>) { unimplemented!() 
 pub fn vx_placeholder_name() -> (r: String) ensures spec_is_base_name(r@) { unimplemented!() }
 impl FileTransferPlugin {
 //@ extract src/plugins/file_transfer.rs FileTransferPlugin::base_name_for_filetransfer
-//@   sub R12 `std::path::Path::new(&file_transfer.file_name) .file_name() .map(|s| s.to_string_lossy())` => `(match VxPath::new(&file_transfer.file_name).file_name() { Some(s) => Some(s.to_string_lossy()), None => None })`
+//@   sub R12 `std::path::Path::new(` => `VxPath::new(` *
+//@   sub R12 `.file_name() .map(|s| s.to_string_lossy())` => `.vx_file_name_lossy()` ?
 //@   sub R6 `vx_opaque_string()` => `vx_placeholder_name()`
 //@   spec
 //@|    ensures spec_is_base_name(r@), // O:save.base_name (the name used for saving is a single path component: the last component of the announced name, or a placeholder)
@@ -364,13 +373,10 @@ pub open spec fn save_frame(a: FileTransfer, b: FileTransfer, keep_data: bool) -
 impl FileTransferPlugin {
 //@ extract src/plugins/file_transfer.rs FileTransferPlugin::check_auto_save
 //@   sub R12 `glob: &Option<glob::Pattern>,` => `vx_fs: &mut VxFs, glob: &Option<VxGlob>,`
-//@   sub R12 `std::path::Path::new(p)` => `VxPath::new(p)`
-//@   sub R12 `std::path::Path::new("./")` => `VxPath::new_dot()`
-//@   sub R12 `path.exists()` => `vx_fs.exists(&path)` ?
-//@   sub R12 `par_dir.exists()` => `vx_fs.exists(&par_dir)` ?
-//@   sub R12 `std::fs::create_dir_all(par_dir)` => `vx_fs.create_dir_all(&par_dir)` ?
-//@   sub R12 `File::create(&path) .and_then(|mut f| f.write_all(&file_transfer.file_data))` => `vx_fs.create_and_write(&path, &file_transfer.file_data)`
-//@   sub R12 `path.to_str().map(|p| p.to_owned())` => `vx_path_text_owned(&path)`
+//@   sub R12 `std::path::Path::new(` => `VxPath::new(` *
+//@   sub R12 `std::fs::create_dir_all(__)` => `vx_fs.create_dir_all($1)` ?
+//@   sub R12 `File::create(__) .and_then(|mut f| f.write_all(__))` => `vx_fs.create_and_write($1, $2)` ?
+//@   sub R12 `_id_.to_str().map(|p| p.to_owned())` => `vx_path_text_owned(&$1)` ?
 //@   sub R11 `file_transfer.file_data.capacity()` => `vx_capacity(&file_transfer.file_data)`
 //@   spec
 //@|    ensures
